@@ -45,7 +45,7 @@ SITUATIONS = {
     'awaiting-close-aborted': ('requestor', ['pAC', 'uABORT']),
 }
 N = {"quick": 1500, "thorough": 300000}     # mutants per situation
-MODES = ['framed', 'whole', 'random']
+MODES = ['framed', 'whole', 'random', 'pending']
 
 
 def exhaustive(tier):
@@ -98,14 +98,16 @@ def run_case(res, case, verbose=False):
     r = rng(seed, 'c12', name, index)
     label, frames = mutate.mutant_stream(r)
     stream = b''.join(frames)
-    mode = MODES[index % 3]
+    mode = MODES[index % 4]
+    if mode == 'pending' and (role != 'acceptor' or prefix):
+        mode = 'whole'      # only an acceptor can find bytes waiting when it starts
     ending = 'reset' if r.random() < 0.25 else 'close'
     stop_after = r.random() < 0.3
     use_file = r.random() < 0.3
     framed, rest = refcodec.split_stream(stream)
     if mode == 'framed':
         segments = list(framed) + ([rest] if rest else [])
-    elif mode == 'whole':
+    elif mode in ('whole', 'pending'):
         segments = [stream] if stream else []
     else:
         cuts = sorted(set(r.randrange(1, len(stream)) for _ in range(r.choice([1, 2, 4, 9])))) \
@@ -130,7 +132,7 @@ def run_case(res, case, verbose=False):
                                                   uid.ImplicitVRLittleEndian),
                       3: asceprovider.PContextDef(3, uid.UID(F.CT_STORAGE.decode()),
                                                   uid.ImplicitVRLittleEndian)}}
-    sim = simnet.Sim(role, script, **kwargs)
+    sim = simnet.Sim(role, script, first_pending=(mode == 'pending'), **kwargs)
     sim.run()
     res.evaluations += 1
     case = dict(case, label=label, mode=mode, ending=ending)
